@@ -476,3 +476,28 @@ M("m99g", "C17", "R17.4", PROBLEM, "        return P, R", "        return P, R /
 MUTANTS.pop()
 B("b30", ["C17"], PROBLEM, "        R = jnp.sum(probs * rewards, axis=-1)  # [S, A]", "        R = jnp.sum(rewards * probs, axis=2)  # [S, A]", "operands commuted, axis spelled 2")
 B("b31", ["C17"], PROBLEM, "        if max_deviation > normalization_tolerance:", "        if normalization_tolerance < max_deviation:", "comparison flipped")
+
+# =============================================================================== C15
+M("m92", "C15", ["R15.1", "R15.2"], MIRJ, "        remaining_demand = (remaining_demand - stock_element).clip(0)\n        return remaining_demand, remaining_stock",
+  "        remaining_demand = remaining_demand - stock_element\n        return remaining_demand, remaining_stock", "Mirjalili _issue_one_step: remaining demand not clipped")
+M("m93", "C15", "R15.3", DEMOOR, "            [in_transit[-1], stock_after_issue[0 : self.max_useful_life - 1]]", "            [in_transit[0], stock_after_issue[0 : self.max_useful_life - 1]]",
+  "De Moor: the newest order is received instead of the oldest (differs only for lead time > 1)")
+M("m94", "C15", "R15.3", MIRJ, "        next_weekday = (state[self.state_component_lookup[\"weekday\"]] + 1) % 7", "        next_weekday = (state[self.state_component_lookup[\"weekday\"]] + 1) % 6",
+  "weekday modulo 6", survives="no")
+M("m94b", "C15", "R15.2", HENDRIX, "            self._issue_one_step, demand, opening_stock, reverse=True\n        )", "            self._issue_one_step, demand, opening_stock\n        )",
+  "Hendrix issues newest first (documented FIFO)")
+M("m94c", "C15", "R15.4", DEMOOR, "        holding = jnp.sum(stock_after_issue[0 : self.max_useful_life - 1])", "        holding = jnp.sum(stock_after_issue)",
+  "De Moor: holding cost charged on expiring units too")
+M("m94d", "C15", "R15.4", MIRJ, "            [variable_order, fixed_order, shortage, expiries, holding]", "            [variable_order, fixed_order, expiries, shortage, holding]",
+  "Mirjalili: shortage and wastage components swapped against the cost vector")
+M("m94e", "C15", "R15.4", HENDRIX, "        self.sales_prices = jnp.array([self.sales_price_a, self.sales_price_b])", "        self.sales_prices = jnp.array([self.sales_price_b, self.sales_price_a])",
+  "Hendrix: sales prices of A and B swapped (equal in every test)")
+M("m94f", "C15", "R15.3", HENDRIX, "                action[self.action_component_lookup[\"order_quantity_b\"]],\n                stock_after_issue_b[0 : self.max_useful_life - 1],",
+  "                action[self.action_component_lookup[\"order_quantity_a\"]],\n                stock_after_issue_b[0 : self.max_useful_life - 1],", "Hendrix: product B receives product A's order")
+M("m94g", "C15", "R15.3", DEMOOR, "            \"stock\": slice(\n                self.lead_time - 1, self.lead_time - 1 + self.max_useful_life\n            ),",
+  "            \"stock\": slice(\n                self.lead_time, self.lead_time + self.max_useful_life\n            ),", "De Moor: stock slice shifted by one (lookup table vs documented layout)", survives="no")
+M("m94h", "C15", "R15.2", DEMOOR, "        if self.issue_policy == \"fifo\":\n            self._issue_stock = self._issue_fifo\n        else:\n            self._issue_stock = self._issue_lifo",
+  "        if self.issue_policy == \"lifo\":\n            self._issue_stock = self._issue_fifo\n        else:\n            self._issue_stock = self._issue_lifo", "De Moor: policies crossed", survives="no")
+M("m94i", "C15", "R15.4", FOREST, "            jnp.where(state[0] == self.S - 1, self.r1, 0.0),", "            jnp.where(state[0] == self.S - 1, self.r2, 0.0),", "Forest: waiting in the oldest state pays r2", survives="no")
+M("m94j", "C15", "R15.3", MIRJ, "        opening_stock_after_delivery = opening_stock_after_delivery.clip(\n            0, self.max_order_quantity\n        )\n", "", "Mirjalili: post-delivery clip removed (also C14)")
+B("b32", ["C15"], DEMOOR, "        shortage = jnp.max(jnp.array([demand - jnp.sum(opening_stock), 0]))", "        shortage = jnp.max(jnp.array([0, demand - jnp.sum(opening_stock)]))", "max operands commuted")
